@@ -443,6 +443,54 @@ def check_sweep_marks(rep, config):
     rep.floor("mark-clearing sites in the sweep (%s)" % config, n, 4)
 
 
+INT_MAX_OF = {"i8": 127, "schar": 127, "char": 127, "u8": 255, "i16": 32767, "u16": 65535, "i32": 2**31 - 1, "u32": 2**32 - 1,
+              "i64": 2**63 - 1, "u64": 2**64 - 1}
+
+
+def check_asserted_ranges(rep, config):
+    """A value the storage manager asserts to be below a constant K and then keeps in a field must fit that field: the field's
+    type has to hold K-1.  (A section's page count asserted < 65536 but kept in a signed short goes negative for objects over
+    128 MiB; the sweep then walks the page map backwards.)"""
+    f = common.extract("store.c", config, all_trees=True)
+    n = 0
+    for name, fn in sorted(f.funcs.items()):
+        if "body" not in fn or not fn.get("file", "").endswith("store.c"):
+            continue
+        bounds = {}
+        for x in walk(fn["body"]):
+            if x.get("mac") == "assert" and x["k"] == "UnaryOperator" and x.get("op") == "!":
+                c = strip(x["c"][0])
+                if c is None or c["k"] != "BinaryOperator" or c["op"] not in ("<", "<="):
+                    continue
+                x = c
+                k = common.const_value(x["c"][1])
+                e = strip(x["c"][0])
+                if k is not None and e is not None and e["k"] == "DeclRefExpr":
+                    bounds[e["n"]] = k - 1 if x["op"] == "<" else k
+        if not bounds:
+            continue
+        for x in walk(fn["body"]):
+            if x["k"] != "BinaryOperator" or x["op"] != "=":
+                continue
+            l, r = strip(x["c"][0]), strip(x["c"][1])
+            if l is None or r is None or l["k"] != "MemberExpr" or r["k"] != "DeclRefExpr" or r["n"] not in bounds:
+                continue
+            tc = l.get("tc")
+            if tc not in INT_MAX_OF:
+                continue
+            n += 1
+            key = "asserted-range-fits:%s:%s" % (name, l["n"])
+            top = bounds[r["n"]]
+            if INT_MAX_OF[tc] >= top:
+                rep.ok("T-width", key, sample={"field": l["n"], "class": tc, "asserted maximum": top})
+            else:
+                rep.violation("T-width", key, "store.c:%d (%s)" % (x["l"], name),
+                              "'%s' is asserted to be at most %d and stored in field '%s' of class %s (maximum %d): larger legal values "
+                              "wrap, and every later use of the field (page stepping in the sweep, returning pages) works on a wrong "
+                              "or negative count" % (r["n"], top, l["n"], tc, INT_MAX_OF[tc]))
+    rep.floor("asserted values kept in integer fields (%s)" % config, n, 1)
+
+
 def run(tier):
     rep = common.Report("C10", tier, EXPLANATION)
     for config in ("compiler", "runtime"):
@@ -452,6 +500,7 @@ def run(tier):
         check_carving(rep, config)
         check_btree_handles(rep, config)
         check_sweep_marks(rep, config)
+        check_asserted_ranges(rep, config)
     rep.floor("C10 table obligations", rep.obligations, 60)
     rep.assumptions.append("allocation, free, resize and collection histories are not analysed")
     return rep
